@@ -161,9 +161,14 @@ func (r *TiingoRepository) GetSince(name string, date time.Time) (<-chan *Snapsh
 
 		decoder := json.NewDecoder(res.Body)
 
-		_, err = decoder.Token()
+		token, err := decoder.Token()
 		if err != nil {
 			r.Logger.Error("Unable to read token.", "error", err)
+			return
+		}
+
+		if token != json.Delim('[') {
+			r.Logger.Error("Expecting start of array.", "token", token)
 			return
 		}
 
